@@ -42,17 +42,17 @@ is not Data-complete into Data-complete, from any state. -/
 theorem C01_only_verification_completes (env : Env) (s : DestSt) (h : s.p.fin.deliv ≠ dcComplete) :
     (∀ o d, (stateOf (handleFdPdu env o d s)).p.fin.deliv ≠ dcComplete) ∧
     (∀ f o d, (stateOf (handleFdWithoutPreviousMetadata f o d s)).p.fin.deliv ≠ dcComplete) ∧
-    (∀ c sz, (stateOf (handleEofWithoutPreviousMetadata env c sz s)).p.fin.deliv ≠ dcComplete) ∧
+    (∀ cc c sz, (stateOf (handleEofWithoutPreviousMetadata env cc c sz s)).p.fin.deliv ≠ dcComplete) ∧
     (∀ c, (stateOf (declareFault c s)).p.fin.deliv ≠ dcComplete) ∧
     (∀ t, (stateOf (cancelRequest env t s)).p.fin.deliv ≠ dcComplete) ∧
     (stateOf (handleTransferCompletion env s)).p.fin.deliv ≠ dcComplete ∧
     (stateOf (prepareFinishedPdu s)).p.fin.deliv ≠ dcComplete ∧
     (stateOf (resendFinished env s)).p.fin.deliv ≠ dcComplete ∧
     (stateOf (getNextPacket s)).p.fin.deliv ≠ dcComplete := by
-  refine ⟨fun o d => ?_, fun f o d => ?_, fun c sz => ?_, fun c => ?_, fun t => ?_, ?_, ?_, ?_, ?_⟩
+  refine ⟨fun o d => ?_, fun f o d => ?_, fun cc c sz => ?_, fun c => ?_, fun t => ?_, ?_, ?_, ?_, ?_⟩
   · exact NotComplete.handleFdPdu_n env o d s h
   · exact NotComplete.handleFdWithoutMd_n env f o d s h
-  · exact NotComplete.handleEofWithoutMd_n env c sz s h
+  · exact NotComplete.handleEofWithoutMd_n env cc c sz s h
   · exact NotComplete.declareFault_n env c s h
   · exact NotComplete.cancelRequest_n env t s h
   · exact NotComplete.handleTransferCompletion_n env s h
